@@ -1,22 +1,33 @@
 #!/venv/bin/python
-"""Run the checks against the kept seeded changes: apply /verif/seeded/<id>/patch.diff to /repo, run the quick check of the
-property it breaks (no evidence), undo.  usage: tools/seeded.py [id ...] [--all-props]"""
-import json, os, subprocess, sys, glob, time
+"""Run the checks against the kept seeded changes: apply /verif/seeded/<id>/patch.diff to a scratch copy of /repo/coba (outside
+/repo and /verif, removed afterwards; the check is pointed at it through COBA_VERIF_SRC, exactly as tools/mutants.py does - so
+a background soak that uses /repo is not disturbed), run the quick check of the property it breaks (no evidence).
+usage: tools/seeded.py [id ...] [--all-props]      (--in-repo applies to /repo itself with git apply / git checkout instead)"""
+import json, os, subprocess, sys, glob, time, shutil, tempfile
 VERIF = os.path.dirname(os.path.dirname(os.path.abspath(__file__)))
 ids = [a for a in sys.argv[1:] if not a.startswith("--")] or sorted(os.path.basename(p) for p in glob.glob(os.path.join(VERIF, "seeded", "*")) if os.path.isdir(p))
 rc_all = 0
 for sid in ids:
     d = os.path.join(VERIF, "seeded", sid)
     meta = json.load(open(os.path.join(d, "meta.json")))
-    st = subprocess.run(["git", "-C", "/repo", "status", "--porcelain", "--untracked-files=no"], capture_output=True, text=True).stdout.strip()
-    assert not st, f"/repo is not clean: {st}"
-    subprocess.run(["git", "-C", "/repo", "apply", os.path.join(d, "patch.diff")], check=True)
+    in_repo = "--in-repo" in sys.argv
+    scratch = None
+    if in_repo:
+        st = subprocess.run(["git", "-C", "/repo", "status", "--porcelain", "--untracked-files=no"], capture_output=True, text=True).stdout.strip()
+        assert not st, f"/repo is not clean: {st}"
+        subprocess.run(["git", "-C", "/repo", "apply", os.path.join(d, "patch.diff")], check=True)
+        extra_env = {}
+    else:
+        scratch = tempfile.mkdtemp(prefix="coba_seeded_")
+        shutil.copytree("/repo/coba", os.path.join(scratch, "coba"), ignore=shutil.ignore_patterns("__pycache__"))
+        subprocess.run(["patch", "-s", "-p1", "-d", scratch, "-i", os.path.join(d, "patch.diff")], check=True)
+        extra_env = {"COBA_VERIF_SRC": scratch}
     try:
         props = meta.get("also_check", []) if "--all-props" in sys.argv else []
         for prop in [meta["property"]] + props:
             t0 = time.time()
             p = subprocess.run([os.path.join(VERIF, "check"), prop, "--tier", "quick", "--no-evidence"],
-                               env=dict(os.environ, VERIF_REPLAY_DIR="/tmp/verif_seeded_replays"), capture_output=True, text=True)
+                               env=dict(os.environ, VERIF_REPLAY_DIR="/tmp/verif_seeded_replays", **extra_env), capture_output=True, text=True)
             caught = p.returncode == 1 and "VIOLATION property=" in p.stdout
             line = next((l for l in p.stdout.splitlines() if l.startswith("violation class=")), "")
             print(f"{'CAUGHT' if caught else 'MISSED'} {sid:<28} by {prop} rc={p.returncode} {time.time()-t0:5.1f}s {line[:150]}", flush=True)
@@ -25,6 +36,9 @@ for sid in ids:
             if p.returncode not in (0, 1):
                 print(p.stdout[-800:], p.stderr[-800:])
     finally:
-        subprocess.run(["git", "-C", "/repo", "checkout", "--", "."], check=True)
+        if in_repo:
+            subprocess.run(["git", "-C", "/repo", "checkout", "--", "."], check=True)
+        else:
+            shutil.rmtree(scratch, ignore_errors=True)
 subprocess.run(["rm", "-rf", "/tmp/verif_seeded_replays"])
 sys.exit(rc_all)
